@@ -248,7 +248,10 @@ pub fn run(ctx: &mut Ctx) {
     ctx.rule = "case = (wrapper name drawn uniformly from the static list of exercised wrappers, argument bundle). The bundle holds receivers whose nine fields \
 (year, month, day, hour, minute, second, ms, us, ns) are pairwise distinct by construction, a second operand, zones (UTC, 9 named IANA zones incl. America/New_York, \
 Europe/London, Asia/Kolkata, Australia/Lord_Howe, 6 fixed offsets), 17 calendars, durations, every option (all variants incl. absent), raw constructor arguments around \
-each limit, partial-record masks, strings. compiled: wrapper(args) vs *_with_provider(args, fresh FsTzdbProvider) - same rendered value or same error kind (the core is \
+each limit, partial-record masks, strings, every era name and alias of the crate (up to 19 bytes) plus 16/17-byte and upper-case names; one third of the days are among the last three \
+of their month; one bundle in five is in transition mode: any real IANA zone, receiver within a day (often within two hours) of one of its listed transitions, \
+transitions near a local midnight or with an unusual shift preferred, one in eight from the data-derived class whose skipped interval contains a local midnight strictly \
+inside; with_plain_time gets the receiver's own wall time in one case of three. compiled: wrapper(args) vs *_with_provider(args, fresh FsTzdbProvider) - same rendered value or same error kind (the core is \
 called first; if it panics the wrapper is not called and the case is unjudged). capi: ffi function vs the temporal_rs method it names; values are rendered through each \
 side's own getters; strings read back from DiplomatWrite buffers. conv: exhaustive enum tables, all 64 subsets of PartialDate/PartialTime, all 1024 of PartialDuration, \
 option records, I128Nanoseconds. non-trivial: every judged case (the rule of the property); distinct = distinct (function, bundle) by hash; the class histogram counts \
